@@ -488,3 +488,56 @@ Proof.
     + assert (Ei : i = pad ([kt; t] ++ raw)) by congruence. subst i. now apply decode_lvl2.
     + assert (Ei : i = pad ([kt_host_host; t] ++ raw)) by congruence. subst i. now apply decode_lvl2.
 Qed.
+
+(** ** distinct hosts get distinct keys (for a collision-free PRF) *)
+
+Lemma opt_bytes_eqb_refl (k : option key) : option_eqb bytes_eqb k k = true.
+Proof. destruct k as [k|]; [apply (proj2 (bytes_eqb_eq k k) eq_refl) | reflexivity]. Qed.
+
+Lemma all2_opt_refl (l : list (option key)) : all2 (option_eqb bytes_eqb) l l = true.
+Proof. induction l as [|x l IH]; [reflexivity|]. cbn [all2]. now rewrite opt_bytes_eqb_refl. Qed.
+
+Lemma pack_eqb_refl x : pack_eqb x x = true.
+Proof.
+  destruct x as [[t r]|]; [|reflexivity]. cbn.
+  now rewrite N.eqb_refl, (proj2 (bytes_eqb_eq r r) eq_refl).
+Qed.
+
+Lemma model_input_same_host fmt kt proto h1 h2 i :
+  fmt <> 0 ->
+  model_input fmt kt proto 0 h1 = Some i -> model_input fmt kt proto 0 h2 = Some i ->
+  pack_addr h1 = pack_addr h2.
+Proof.
+  intros F E1 E2.
+  destruct fmt as [|[[q|q|]|[q|q|]|]]; try congruence; cbn [model_input] in E1, E2;
+    try exact (hh_input_inj _ _ _ E1 E2).
+  - (* 2: generic; the protocol is the same on both sides, so only the host matters *)
+    unfold gen_lvl2_input in *.
+    destruct (pack_addr h1) as [[t1 r1]|] eqn:P1; [|discriminate].
+    destruct (pack_addr h2) as [[t2 r2]|] eqn:P2; [|discriminate].
+    pose proof P1 as W1. pose proof P2 as W2.
+    apply pack_addr_wf in W1 as [T1 L1]. apply pack_addr_wf in W2 as [T2 L2].
+    rewrite (type_nibble _ T1) in E1. rewrite (type_nibble _ T2) in E2.
+    destruct (be2_form proto) as (a & b & Q). rewrite Q in *.
+    assert (F1 : pad ([kt] ++ [a; b] ++ [t1] ++ r1) = pad ([kt] ++ [a; b] ++ [t2] ++ r2)) by congruence.
+    assert (H := F1). unfold pad in H. cbn [app] in H. injection H as Ht _. subst t2.
+    apply pad_inj in F1; [|cbn [app length]; now rewrite L1, L2].
+    cbn [app] in F1. injection F1 as ->. reflexivity.
+  - (* 1: specific *)
+    exact (proj2 (spec_lvl2_input_inj _ _ _ _ _ E1 E2)).
+Qed.
+
+Lemma pair_ok_model (prf : key -> bytes -> key) fmt kt proto parent h1 h2 :
+  fmt <> 0 -> (forall i j, prf parent i = prf parent j -> i = j) ->
+  let d1 := pair_key prf fmt kt proto parent h1 in
+  let d2 := pair_key prf fmt kt proto parent h2 in
+  pair_ok h1 h2 d1 d2 d1 d2 = true.
+Proof.
+  intros F Inj d1 d2. unfold pair_ok. rewrite !opt_bytes_eqb_refl. cbn [andb].
+  unfold d1, d2, pair_key.
+  destruct (model_input fmt kt proto 0 h1) as [i1|] eqn:M1; [|reflexivity].
+  destruct (model_input fmt kt proto 0 h2) as [i2|] eqn:M2; [|reflexivity].
+  cbn [option_map]. destruct (bytes_eqb (prf parent i1) (prf parent i2)) eqn:E; [|reflexivity].
+  apply bytes_eqb_eq in E. apply Inj in E. subst i2.
+  rewrite (model_input_same_host fmt kt proto h1 h2 i1 F M1 M2). apply pack_eqb_refl.
+Qed.
